@@ -91,7 +91,7 @@ fn client_id_body(user_has_id: bool, custom_auth: bool) {
 // @gv props=C20 tier=quick required=yes fns=AwsClientBuilder::build_final_connect_options
 // @gv bounds="user supplied NO client id; scalar connect options symbolic (present/absent); no custom auth"
 // @gv stubs="uuid::Uuid::new_v4 -> any 128-bit value; <Uuid as ToString>::to_string -> fixed 36-byte text"
-// @gv timeout=1200 mem=12
+// @gv timeout=1200 mem=6
 #[kani::proof]
 #[kani::unwind(40)]
 #[kani::stub(std::fmt::format, stub_format)]
@@ -101,7 +101,7 @@ fn c20_client_id_generated() { client_id_body(false, false) }
 // @gv props=C20 tier=quick required=yes fns=AwsClientBuilder::build_final_connect_options
 // @gv bounds="user supplied the client id 'mine'; scalar connect options symbolic; custom-auth username/password present"
 // @gv stubs="uuid::Uuid::new_v4 -> any 128-bit value"
-// @gv timeout=1200 mem=12
+// @gv timeout=1200 mem=6
 #[kani::proof]
 #[kani::unwind(40)]
 #[kani::stub(std::fmt::format, stub_format)]
